@@ -168,10 +168,31 @@ func runC10Dwell(c *Cfg) {
 	})
 }
 
+// runC10SelfLoopEnd: an inner flow that ends straight out of a self-loop presents the action of its LAST node visit.
+func runC10SelfLoopEnd(c *Cfg) {
+	r := c.Rep
+	cases := selfLoopThenEndCases()
+	parallel(c, len(cases), func(i int) {
+		sc := cases[i]
+		outs, mrs := runScenario(sc)
+		r.EvalN(int64(len(outs)))
+		for k := range outs {
+			for _, f := range scen.Judge(sc, &mrs[k], &outs[k]) {
+				if f.Prop == "C10" || (f.Prop == "C03" && (f.Key == "path" || f.Key == "store-log")) {
+					r.Violate("C10", "C10:self-loop-then-end:"+f.Key, fmt.Sprintf("an inner flow whose last node self-loops and then ends the flow with another action: the parent routes on the action of the last visit: %s", f.Detail), ScenCase{"self-loop-then-end", sc})
+				}
+			}
+		}
+		r.Count("self_loop_then_end.cases", 1)
+		r.Nontrivial("slte:" + scenSig(sc))
+	})
+}
+
 func runC10(c *Cfg) {
 	r := c.Rep
 	defer runC10Retries(c)
 	defer runC10Dwell(c)
+	defer runC10SelfLoopEnd(c)
 	nr := c.Pick(20000, 1000000)
 	parallel(c, nr, func(i int) {
 		rg := c.Rng("c10", i)
@@ -226,6 +247,19 @@ func replayC10(c *Cfg, spec json.RawMessage) {
 		fmt.Printf("inject %+v: err=%q returned while the callback was still running: %v\n", cs.Scenario.Inject, o.ErrText, o.ReturnedDuringCallback)
 		if o.ReturnedDuringCallback {
 			c.Rep.Violate("C10", "C10:returned-while-inner-node-running", "Run returned while a node inside a nested flow was still executing", cs)
+		}
+		return
+	}
+	if cs.Family == "self-loop-then-end" {
+		outs, mrs := runScenario(cs.Scenario)
+		for k := range outs {
+			fmt.Printf("--- run %d\nmodel : %v action=%q\nnested: %v action=%q err=%q\n", k, mrs[k].Keys, mrs[k].Action, keysOf(outs[k].Events), outs[k].Action, outs[k].ErrText)
+			for _, f := range scen.Judge(cs.Scenario, &mrs[k], &outs[k]) {
+				if f.Prop == "C10" || (f.Prop == "C03" && (f.Key == "path" || f.Key == "store-log")) {
+					fmt.Printf(" * finding %s %s: %s\n", f.Prop, f.Key, f.Detail)
+					c.Rep.Violate("C10", "C10:self-loop-then-end:"+f.Key, f.Detail, cs)
+				}
+			}
 		}
 		return
 	}
